@@ -177,3 +177,243 @@ Example repaired_reorg_example :
      = [(1,1001);(2,1002);(3,1003);(4,2004);(5,2005);(6,2006);(7,2007)]
   /\ map c_num (d_curs (fst (w2_run repaired))) = [3;6;7].
 Proof. exact repaired_reorg_clean. Qed.
+
+(* ======================================================================
+   BRIDGE rows -> task on REORG histories.  The theorems above quantify over a
+   history [H : list chain] whose blocks carry ABSTRACT rows.  Here [H] is the
+   instantiation of a rows-level history [RH : list (list Rows.blockr)] (a list
+   of versions, each the list of its blocks from block 0) by the row builder of
+   C11 for a declared integration [dcl]: every version is instantiated on its
+   own by [inst_chain] of the growth bridge (Properties/C01.v) -- rows =
+   [Rows.insert]'s rows tagged with identity keys and encoded by the injective
+   [enc_key] / [enc_row], hash ids by the injective [hid], the parent of a
+   block := the hash id of the block before it IN ITS VERSION ([parent_id]; a
+   [blockr] carries no parent hash).
+   ====================================================================== *)
+From Shovel Require Model.Filter Model.Rows Proofs.BridgeRowsTaskP Proofs.BridgeRowsReorgP.
+From Shovel Require Import Model.BridgeRowsTask Model.BridgeRowsReorg.
+
+(* the block an instantiated version has at number n is the instantiation of
+   the version's n-th block, its parent the hash id of the (n-1)-th (0 at 0) *)
+Theorem reorg_inst_block_at : forall dcl ctx dbs v n x,
+  blk_at (inst_chain dcl ctx dbs v) n = Some x ->
+  exists b, nth_error v (N.to_nat n) = Some b
+            /\ x = inst_blk dcl ctx dbs (parent_id v (N.to_nat n)) b.
+Proof. exact BridgeRowsReorgP.inst_blk_at. Qed.
+Print Assumptions reorg_inst_block_at.
+
+(* versions that agree on their first n rows-level blocks instantiate to the
+   same first n task-level blocks (numbers, hash ids, parent ids, rows), and
+   give the block after the shared prefix the same parent id *)
+Theorem inst_chain_prefix : forall dcl ctx dbs n v v',
+  firstn n v = firstn n v' ->
+  firstn n (inst_chain dcl ctx dbs v) = firstn n (inst_chain dcl ctx dbs v')
+  /\ parent_id v n = parent_id v' n.
+Proof. exact BridgeRowsReorgP.inst_prefix_both. Qed.
+Print Assumptions inst_chain_prefix.
+
+(* (1) C03's premise [history_ok] holds of the instantiated history when every
+   version is non-empty, numbered from 0 with non-empty hashes, and shorter
+   than nmax.  NOTHING is asked about how the versions relate. *)
+Theorem reorg_history_ok : forall dcl ctx dbs RH,
+  rows_history_wf RH -> history_ok (inst_history dcl ctx dbs RH).
+Proof. exact BridgeRowsReorgP.inst_history_ok. Qed.
+Print Assumptions reorg_history_ok.
+
+(* C03's premise [hash_identifies] (canonical-table and liveness theorems
+   only) follows from its rows-level reading: the same block hash at two
+   positions of the history means the same block and the same predecessor hash *)
+Theorem reorg_hash_identifies : forall dcl ctx dbs RH,
+  rows_hash_identifies RH -> hash_identifies (inst_history dcl ctx dbs RH).
+Proof. exact BridgeRowsReorgP.inst_hash_identifies. Qed.
+Print Assumptions reorg_hash_identifies.
+
+(* ... it is NOT implied by well-formedness of the versions (two versions give
+   block 2 one hash above different blocks 1: one hash id, two parent ids) *)
+Theorem reorg_hash_identifies_unconditional_refuted : ~ hash_identifies_unconditional.
+Proof. exact BridgeRowsReorgP.hash_identifies_unconditional_refuted. Qed.
+Print Assumptions reorg_hash_identifies_unconditional_refuted.
+
+(* ... and in a well-formed history it says exactly that versions sharing a
+   block hash share the whole prefix up to that block (their fork point lies
+   above it) *)
+Theorem rows_hash_identifies_shares_prefix : forall RH,
+  rows_history_wf RH -> rows_hash_identifies RH ->
+  forall v v' i j b b', In v RH -> In v' RH ->
+  nth_error v i = Some b -> nth_error v' j = Some b' ->
+  Filter.ob (Rows.b_hash b) = Filter.ob (Rows.b_hash b') ->
+  i = j /\ firstn (S i) v = firstn (S i) v'.
+Proof. exact BridgeRowsReorgP.rows_hash_identifies_prefix. Qed.
+Print Assumptions rows_hash_identifies_shares_prefix.
+
+(* (2) In ANY state the C03 safety theorems allow (TaskInvH over the
+   instantiated history: after any number of steps under any faults, every
+   answer from any version) the pair's table is, in order, the declared rows
+   of a run [bl] of (version, block) pairs such that
+   - each block is the block its version has at its number ([rblock_of]),
+   - consecutive ones have consecutive numbers and the block BEFORE the later
+     one in the later one's own version carries the earlier one's hash
+     ([rlinked]: linked_indexed read at rows level -- rows of different block
+     numbers come from blocks whose parents link, across versions),
+   - Integration.Insert over exactly these blocks returns Ok rows whose
+     encodings are the table's values in order (needs [rows_inserts_ok]; a
+     block on which Insert fails would have no rows here),
+   - every stored row is [trow_of c (b_num b) (k, gr)] for a block b of the run
+     with [declared_row dcl ctx dbs b k gr] (C11's row_cells_spec /
+     tx_row_cells_spec / enclosing fields for the item the key names).
+   [wf_items] is not needed for this. *)
+Theorem reorg_table_is_declared_linked : forall dcl ctx dbs RH c d,
+  rows_history_wf RH -> rows_inserts_ok dcl ctx dbs RH ->
+  TaskInvH c (inst_history dcl ctx dbs RH) d ->
+  exists bl rows,
+    Forall (fun vb => rblock_of RH (fst vb) (snd vb)) bl
+    /\ rlinked bl
+    /\ d_rows (pv c d) = concat (map (fun vb => declared_rows c dcl ctx dbs (snd vb)) bl)
+    /\ Rows.insert Rows.fixed dcl ctx dbs (map snd bl) = Ok rows
+    /\ map r_val (d_rows (pv c d)) = map enc_row rows
+    /\ forall r, In r (d_rows (pv c d)) ->
+         exists v b k gr, In (v, b) bl /\ rblock_of RH v b
+           /\ r = trow_of c (Rows.b_num b) (k, gr) /\ declared_row dcl ctx dbs b k gr.
+Proof. exact BridgeRowsReorgP.reorg_declared_table. Qed.
+Print Assumptions reorg_table_is_declared_linked.
+
+(* ... composed with [indexed_in_history] (same hypotheses, H the instantiated
+   history): in every committed state of a step -- after every operation, under
+   any fault plan, every answer of the node from any version -- the table is
+   such a [declared_table] (the statement just above, Model/BridgeRowsReorg.v) *)
+Theorem reorg_indexed_rows_are_declared : forall dcl ctx dbs RH c,
+  cfg_ok c -> rows_history_wf RH -> rows_inserts_ok dcl ctx dbs RH -> forall g d s,
+  pv c d = render c g -> wf_ghost c g ->
+  Forall (in_history (inst_history dcl ctx dbs RH)) (concat g) ->
+  trace_sat (node_ans true (inst_history dcl ctx dbs RH)) (step c s d) ->
+  Forall (fun e => declared_table c dcl ctx dbs RH (snd e)) (r_trace (step c s d))
+  /\ declared_table c dcl ctx dbs RH (r_db (step c s d)).
+Proof. exact BridgeRowsReorgP.reorg_step_declared. Qed.
+Print Assumptions reorg_indexed_rows_are_declared.
+
+(* ... and with [indexed_in_history_runs]: over whole runs *)
+Theorem reorg_indexed_rows_are_declared_runs : forall dcl ctx dbs RH c,
+  cfg_ok c -> rows_history_wf RH -> rows_inserts_ok dcl ctx dbs RH -> forall ss d,
+  TaskInvH c (inst_history dcl ctx dbs RH) d ->
+  runs_sat (node_ans true (inst_history dcl ctx dbs RH)) c ss d ->
+  Forall (declared_table c dcl ctx dbs RH) (run_dbs c ss d)
+  /\ declared_table c dcl ctx dbs RH (run_end c ss d).
+Proof. exact BridgeRowsReorgP.reorg_runs_declared. Qed.
+Print Assumptions reorg_indexed_rows_are_declared_runs.
+
+(* [cursor_on_chain_implies_table_canonical] instantiated: whenever the newest
+   cursor carries the hash id of the block version [rch] has at that number,
+   the whole table is the declared rows of a range of [rch] ending there --
+   exactly what ONE Insert over that range returns; no row of another version *)
+Theorem reorg_cursor_on_chain_table_declared : forall dcl ctx dbs RH rch c d n b,
+  rows_history_wf RH -> In rch RH -> rows_hash_identifies RH -> inserts_ok dcl ctx dbs rch ->
+  TaskInvH c (inst_history dcl ctx dbs RH) d ->
+  newest (t_src c) (t_ig c) (d_curs d) = Some (n, bhash_id b) ->
+  nth_error rch (N.to_nat n) = Some b ->
+  exists m k rows, 1 <= k /\ m + k = n + 1 /\ m + k <= N.of_nat (length rch)
+    /\ d_rows (pv c d) = concat (map (declared_rows c dcl ctx dbs) (rsegment rch m k))
+    /\ Rows.insert Rows.fixed dcl ctx dbs (rsegment rch m k) = Ok rows
+    /\ map r_val (d_rows (pv c d)) = map enc_row rows.
+Proof. exact BridgeRowsReorgP.reorg_canonical_declared. Qed.
+Print Assumptions reorg_cursor_on_chain_table_declared.
+
+(* (3) [settled_converges] instantiated, its premises verbatim for
+   H = the instantiated history and ch = the instantiated version [rch] the
+   source settles on; the premise on row keys is DISCHARGED by [wf_items]
+   (distinct tx / log / trace-action indices in rch's blocks; not implied by
+   the client's validation), [hash_identifies] by [rows_hash_identifies].
+   After any past (any steps, faults, stale answers from any version) one
+   fault-free step + at most target - position further steps end with the
+   position at the target min(head, stop), its hash the hash id of rch's block
+   there, and the table EXACTLY the declared rows of rch's blocks [m, target]:
+   what one Integration.Insert over them returns (Ok, needs [inserts_ok] on
+   rch only), in order, nothing of an orphaned version; everything outside the
+   pair untouched. *)
+Theorem settled_converges_declared : forall dcl ctx dbs RH rch c ss d0,
+  let H := inst_history dcl ctx dbs RH in
+  let ch := inst_chain dcl ctx dbs rch in
+  cfg_ok c -> rows_history_wf RH -> In rch RH -> rows_hash_identifies RH ->
+  t_deps c = [] -> Forall wf_items rch -> inserts_ok dcl ctx dbs rch -> t_hashes c = true ->
+  TaskInvH c H d0 -> runs_sat (node_ans true H) c ss d0 ->
+  let d := run_end c ss d0 in
+  (forall x, In x (d_curs (pv c d)) -> c_num x < clip c (height ch - 1)) ->
+  (length (d_curs (pv c d)) <= 1000)%nat ->
+  0 < t_start c -> t_start c - 1 < clip c (height ch - 1) ->
+  exists F ln,
+    let x1 := exec_honest F (t_uniq c) (t_hashes c) ch (converge c) d None in
+    r_out x1 = Fin OConverged
+    /\ exists n m k h rows,
+         let dfin := iter (hstepf c ch) n (r_db x1) in
+         (n <= N.to_nat (clip c (height ch - 1) - ln))%nat
+         /\ 1 <= k /\ m + k = clip c (height ch - 1) + 1 /\ m + k <= N.of_nat (length rch)
+         /\ newest (t_src c) (t_ig c) (d_curs dfin) = Some (clip c (height ch - 1), h)
+         /\ (exists b, nth_error rch (N.to_nat (clip c (height ch - 1))) = Some b /\ h = bhash_id b)
+         /\ d_rows (pv c dfin) = concat (map (declared_rows c dcl ctx dbs) (rsegment rch m k))
+         /\ Rows.insert Rows.fixed dcl ctx dbs (rsegment rch m k) = Ok rows
+         /\ map r_val (d_rows (pv c dfin)) = map enc_row rows
+         /\ outside c dfin = outside c d.
+Proof. exact BridgeRowsReorgP.settled_declared. Qed.
+Print Assumptions settled_converges_declared.
+
+(* NON-VACUITY.  Declaration and version A = [ex_rchain] as in the growth
+   bridge (blocks 0, 1, 2; block 2: hash [3], tx 3 / log 4, a = 6, v = 10).
+   Version B keeps blocks 0 and 1, replaces block 2 (hash [4], tx 1 / log 2,
+   a = 7, v = 11) and adds block 3 (hash [5], a = 8, v = 12): the fork is one
+   block below the head a task following A has indexed.  The hypotheses hold: *)
+Example reorg_bridge_hypotheses_satisfiable :
+  cfg_ok (ex_task 1 1) /\ rows_history_wf ex_rhist /\ rows_hash_identifies ex_rhist
+  /\ rows_inserts_ok ex_decl ex_ctx [] ex_rhist /\ Forall wf_items ex_rchainB
+  /\ In ex_rchainB ex_rhist.
+Proof. exact BridgeRowsReorgP.ex_reorg_hyps. Qed.
+(* ... also the state-dependent premises of [settled_converges_declared], in
+   the state two steps on version A reach (it holds the row of A's block 2,
+   which B orphans), with final version B *)
+Example reorg_bridge_settle_premises :
+  let c := ex_task 1 1 in
+  let H := inst_history ex_decl ex_ctx [] ex_rhist in
+  let d0 := fst (ex_reorg_run 1 1 2 0) in
+  TaskInvH c H d0 /\ runs_sat (node_ans true H) c [] d0
+  /\ (forall x, In x (d_curs (pv c (run_end c [] d0))) -> c_num x < clip c (height ex_chainB - 1))
+  /\ (length (d_curs (pv c (run_end c [] d0))) <= 1000)%nat
+  /\ 0 < t_start c /\ t_start c - 1 < clip c (height ex_chainB - 1)
+  /\ t_deps c = [] /\ t_hashes c = true.
+Proof. exact BridgeRowsReorgP.ex_settle_hyps. Qed.
+(* the executable task model ([hsteps repaired], as in repaired_reorg_example;
+   batch 1): two steps on A store the rows of A's blocks 1, 2; served B, the
+   next step unwinds block 2 and indexes B's block 2, the one after it block
+   3, then nothing new.  The table ends as exactly the C11 rows of B's blocks
+   1..3 under their identity keys = what one Insert over them returns; the row
+   (6, 10) of A's block 2 is gone *)
+Example reorg_bridge_run :
+  let c := ex_task 1 1 in
+  let row5 := [Filter.VU256 5; Filter.VU256 9; Filter.VU64 1; Filter.VU64 0; Filter.VU64 0; Filter.VInt Z0] in
+  let row6 := [Filter.VU256 6; Filter.VU256 10; Filter.VU64 2; Filter.VU64 3; Filter.VU64 4; Filter.VInt Z0] in
+  let row7 := [Filter.VU256 7; Filter.VU256 11; Filter.VU64 2; Filter.VU64 1; Filter.VU64 2; Filter.VInt Z0] in
+  let row8 := [Filter.VU256 8; Filter.VU256 12; Filter.VU64 3; Filter.VU64 0; Filter.VU64 0; Filter.VInt Z0] in
+  let k00 := Key 0 (Some 0) (Some 0%nat) None in
+  (let r := ex_reorg_run 1 1 2 0 in
+   snd r = [Fin OConverged; Fin OConverged]
+   /\ d_rows (fst r) = [trow_of c 1 (k00, row5); trow_of c 2 (Key 3 (Some 4) (Some 0%nat) None, row6)]
+   /\ d_curs (fst r) = [Cur 1 2 1 (hid [2]); Cur 1 2 2 (hid [3])])
+  /\ (let r := ex_reorg_run 1 1 2 1 in
+      snd r = [Fin OConverged; Fin OConverged; Fin OConverged]
+      /\ d_rows (fst r) = [trow_of c 1 (k00, row5); trow_of c 2 (Key 1 (Some 2) (Some 0%nat) None, row7)]
+      /\ d_curs (fst r) = [Cur 1 2 1 (hid [2]); Cur 1 2 2 (hid [4])])
+  /\ (let r := ex_reorg_run 1 1 2 3 in
+      snd r = [Fin OConverged; Fin OConverged; Fin OConverged; Fin OConverged; Fin ONothingNew]
+      /\ d_rows (fst r) = [trow_of c 1 (k00, row5); trow_of c 2 (Key 1 (Some 2) (Some 0%nat) None, row7);
+                           trow_of c 3 (k00, row8)]
+      /\ d_rows (fst r) = concat (map (declared_rows c ex_decl ex_ctx []) (rsegment ex_rchainB 1 3))
+      /\ d_curs (fst r) = [Cur 1 2 1 (hid [2]); Cur 1 2 2 (hid [4]); Cur 1 2 3 (hid [5])]
+      /\ Rows.insert Rows.fixed ex_decl ex_ctx [] (rsegment ex_rchainB 1 3) = Ok [row5; row7; row8]).
+Proof. vm_compute. repeat split; reflexivity. Qed.
+(* batch 5 x concurrency 3: one step on A indexes blocks 1..2 as ONE batch; the
+   fork lies inside it; served B, one step unwinds the whole batch and indexes
+   B's blocks 1..3: same table *)
+Example reorg_bridge_run_batch :
+  let r := ex_reorg_run 5 3 1 1 in
+  snd r = [Fin OConverged; Fin OConverged]
+  /\ d_rows (fst r) = map (fun x => trow_of (ex_task 5 3) (fst x) (snd x)) ex_expectedB
+  /\ map r_val (d_rows (fst r)) = map r_val (d_rows (fst (ex_reorg_run 1 1 2 3)))
+  /\ d_curs (fst r) = [Cur 1 2 3 (hid [5])].
+Proof. vm_compute. repeat split; reflexivity. Qed.
